@@ -9,6 +9,9 @@
 //!   * probe sounds / effects / modulators record the thread on which their `Drop` ran,
 //!   * a probe effect at the end of the main track records `on_start_processing` calls, the chunk
 //!     lengths and the mixer bus, which are compared with the Coq model (`C01/Run.v`).
+//! Slot re-use (rings between the two threads wrapping, arena slots handed out again) is driven on purpose:
+//! `Gen::recycle` scenes, a corpus scene with the default capacities, and single-storage histories
+//! (`res_history_cases`) that are also sent to C08's hand-off model through `CRes` of C01/Run.v.
 //! Monitors per callback: outcome (ok / panic / hang by watchdog), heap traffic, `Drop` thread,
 //! every sample written, finite, in [-1, 1], extra channels silent, chunk sequence.
 //! Since the output stage replaces NaN by silence (`finite_clamped` in backend/renderer.rs) a
@@ -1685,6 +1688,92 @@ impl<'a> Gen<'a> {
 		sc.ops = ops;
 		sc
 	}
+
+	/// slot re-use in whole scenes: resources of several kinds (send tracks with routed sub-tracks, clocks,
+	/// modulators, listeners, sub-tracks, probe sounds) are added, used for a few callbacks and given up
+	/// again, for more rounds than the smallest storage (and its unused-ring, capacity + 1) has slots;
+	/// capacities from 1 up to the defaults
+	fn recycle(&mut self) -> Scene {
+		let mut sc = self.header();
+		sc.caps = [*self.r.pick(&[3usize, 4, 8]), *self.r.pick(&[1usize, 2, 3, 16]), *self.r.pick(&[1usize, 2, 8]), *self.r.pick(&[1usize, 2, 3, 16]), *self.r.pick(&[1usize, 2, 8])];
+		sc.main_cap = 4;
+		let ibs = sc.ibs;
+		let mut ops: Vec<Op> = vec![];
+		// prelude (two handles that stay): a sub-track with a looping sound
+		ops.push(Op::AddSub(SubSpec { vol: -6.0, cap: 2, sub_cap: 1, persist: false, fx: vec![], keep_fx_handles: false, send: None, parent: None }));
+		ops.push(Op::Play(PlaySpec { frames: FramesSpec { n: 64, kind: 3, seed: 1 }, ssr: sc.sr, vol: -6.0, pan: 0.0, rate: 1.0, reverse: false, looped: Some((0.0, 64.0 / sc.sr as f64)), start: None, fade_in: None, start_time: St::Immediate, slice: None, on: Some(0) }));
+		let base = 2u64;
+		// kinds taking part: bit 0 send (+ routed sub-track), 1 clock, 2 modulator, 3 listener, 4 sub-track, 5 probe sound
+		let mut kinds = self.r.below(64);
+		if self.r.chance(2, 3) {
+			kinds |= 1;
+		}
+		if kinds == 0 {
+			kinds = 1;
+		}
+		let mut slots = usize::MAX;
+		let mut most = 0usize;
+		for (bit, cap) in [(1u64, sc.caps[1]), (2, sc.caps[2]), (4, sc.caps[3]), (8, sc.caps[4]), (16, sc.caps[0] - 2)] {
+			if kinds & bit != 0 {
+				slots = slots.min(cap);
+				most = most.max(cap);
+			}
+		}
+		if slots == usize::MAX {
+			slots = 2;
+			most = 2;
+		}
+		let rounds = if self.r.chance(1, 2) { most } else { slots } as u64 + 2 + self.r.below(3);
+		for _ in 0..rounds {
+			let mut held = 0u64;
+			if kinds & 1 != 0 {
+				ops.push(Op::AddSend { vol: self.db(), probe: self.r.chance(1, 2) });
+				held += 1;
+				if self.r.chance(2, 3) {
+					// routed to the first send track alive, i.e. this one
+					ops.push(Op::AddSub(SubSpec { vol: self.db(), cap: 2, sub_cap: 1, persist: self.r.chance(1, 3), fx: vec![], keep_fx_handles: false, send: Some(self.db()), parent: None }));
+					held += 1;
+				}
+			}
+			if kinds & 2 != 0 {
+				ops.push(Op::AddClock { speed: self.clock_speed(), start: self.r.chance(3, 4) });
+				held += 1;
+			}
+			if kinds & 4 != 0 {
+				if self.r.chance(1, 2) {
+					ops.push(Op::AddTweener { init: self.unit() });
+				} else {
+					ops.push(Op::AddLfo { wave: self.r.below(4) as u8, f: 2.0 + self.r.unit_f64() * 50.0, amp: 1.0, offset: 0.0, phase: 0.0 });
+				}
+				held += 1;
+			}
+			if kinds & 8 != 0 {
+				ops.push(Op::AddListener { pos: self.pos() });
+				held += 1;
+			}
+			if kinds & 16 != 0 {
+				ops.push(Op::AddSub(SubSpec { vol: self.db(), cap: 2, sub_cap: 1, persist: false, fx: vec![Fx::Probe], keep_fx_handles: false, send: None, parent: None }));
+				held += 1;
+			}
+			if kinds & 32 != 0 {
+				ops.push(Op::PlayProbe { len: self.r.below(2 * ibs as u64 + 3), on: None });
+			}
+			for _ in 0..self.r.below(3) {
+				let c = self.callback(ibs);
+				ops.push(c);
+			}
+			// give up what this round added, last first (the handle list shrinks from its end)
+			for k in (0..held).rev() {
+				ops.push(Op::DropHandle { sel: base + k });
+			}
+			for _ in 0..1 + self.r.below(2) {
+				let c = self.callback(ibs);
+				ops.push(c);
+			}
+		}
+		sc.ops = ops;
+		sc
+	}
 }
 
 fn listed_classes() -> BTreeSet<String> {
@@ -1804,6 +1893,20 @@ fn corpus() -> Vec<(Option<&'static str>, &'static str, Scene)> {
 	let mut s = base_scene(48000, 64);
 	s.ops = vec![Op::Play(PlaySpec { looped: Some((0.0, 0.001)), ..plain_play(48000, 100, 1) }), Op::Cmd(CmdSpec { which: 6, seek: 1e300, ..plain_cmd() }), cb.clone()];
 	v.push((Some(HZ_SEEK), "sound.seek_to(1e300) on a sound with a loop region", s));
+	// slot re-use with the default capacities: 20 rooms, each with a reverb send, a sub-track routed to it and a
+	// looping sound, entered and left again (the unused-ring of the 16 send-track slots has 17 places)
+	let mut s = base_scene(48000, 64);
+	s.caps = [128, 16, 8, 16, 8];
+	s.main_cap = 128;
+	for _ in 0..20 {
+		s.ops.push(Op::AddSend { vol: 0.0, probe: true });
+		s.ops.push(Op::AddSub(SubSpec { vol: 0.0, cap: 2, sub_cap: 1, persist: false, fx: vec![], keep_fx_handles: false, send: Some(-6.0), parent: None }));
+		s.ops.push(Op::Play(PlaySpec { on: Some(0), looped: Some((0.0, 0.002)), ..plain_play(48000, 100, 3) }));
+		s.ops.extend([cb.clone(), cb.clone()]);
+		s.ops.extend([Op::DropHandle { sel: 2 }, Op::DropHandle { sel: 1 }, Op::DropHandle { sel: 0 }]);
+		s.ops.push(cb.clone());
+	}
+	v.push((None, "20 rounds of add_send_track + routed sub-track + looping sound, callbacks, drop all three, callback (default capacities)", s));
 	// F7 (repaired): regression scenes
 	let mut s = base_scene(48000, 64);
 	s.ops = vec![Op::AddClock { speed: ClockSpeed::SecondsPerTick(0.0), start: true }, cb.clone(), cb.clone()];
@@ -1872,6 +1975,452 @@ fn out_stage_cases(s: &mut Session, rng: &mut Rng, count: u64) {
 	}
 }
 
+// ------------------------------------------------------------------------------------------------
+// slot re-use: histories on ONE resource storage (send tracks, sub-tracks, sounds of the main track,
+// clocks, modulators) with more add -> drop -> callback rounds than the storage has slots, so that
+// every ring between the two threads wraps and every arena slot is handed out again.  Monitors: the
+// clauses of the property on every callback.  Model: C08's hand-off model through `CRes` of C01/Run.v
+// (what `queues_never_overflow` / `audio_side_never_frees` are about): outcome of every operation, the
+// reported count, and which payload is destroyed during which operation on which thread.
+// ------------------------------------------------------------------------------------------------
+#[derive(Clone, Copy, Debug, PartialEq)]
+enum RKind {
+	Send,
+	Sub,
+	Sound,
+	Clock,
+	Modulator,
+}
+const RKINDS: [RKind; 5] = [RKind::Send, RKind::Sub, RKind::Sound, RKind::Clock, RKind::Modulator];
+impl RKind {
+	fn selfref(self) -> bool {
+		matches!(self, RKind::Clock | RKind::Modulator)
+	}
+	/// the payload exists before the slot is reserved (the caller drops it when the limit is reached)
+	fn prebuild(self) -> bool {
+		matches!(self, RKind::Sub | RKind::Sound)
+	}
+	/// M_LEN, and M_DROPS where user code with a `Drop` can be put inside the payload
+	fn mask(self) -> i128 {
+		if self == RKind::Clock { 2 } else { 6 }
+	}
+	fn create_name(self) -> &'static str {
+		match self {
+			RKind::Send => "add_send_track",
+			RKind::Sub => "add_sub_track",
+			RKind::Sound => "play (main track)",
+			RKind::Clock => "add_clock",
+			RKind::Modulator => "add_modulator",
+		}
+	}
+}
+type DropLog = Arc<Mutex<Vec<(u64, ThreadId)>>>;
+struct IdFx {
+	id: u64,
+	log: DropLog,
+}
+impl Effect for IdFx {
+	fn process(&mut self, _input: &mut [Frame], _dt: f64, _info: &Info) {}
+}
+impl Drop for IdFx {
+	fn drop(&mut self) {
+		if let Ok(mut d) = self.log.lock() {
+			d.push((self.id, std::thread::current().id()));
+		}
+	}
+}
+struct IdSound {
+	id: u64,
+	log: DropLog,
+	done: Arc<std::sync::atomic::AtomicBool>,
+	_payload: Vec<u8>,
+}
+impl Sound for IdSound {
+	fn process(&mut self, out: &mut [Frame], _dt: f64, _info: &Info) {
+		for f in out.iter_mut() {
+			*f = Frame::new(0.25, -0.125);
+		}
+	}
+	fn finished(&self) -> bool {
+		self.done.load(Ordering::SeqCst)
+	}
+}
+impl Drop for IdSound {
+	fn drop(&mut self) {
+		if let Ok(mut d) = self.log.lock() {
+			d.push((self.id, std::thread::current().id()));
+		}
+	}
+}
+struct IdSoundData(IdSound);
+impl SoundData for IdSoundData {
+	type Error = ();
+	type Handle = ();
+	fn into_sound(self) -> Result<(Box<dyn Sound>, ()), ()> {
+		Ok((Box::new(self.0), ()))
+	}
+}
+struct IdMod {
+	id: u64,
+	log: DropLog,
+	done: Arc<std::sync::atomic::AtomicBool>,
+}
+impl Modulator for IdMod {
+	fn update(&mut self, _dt: f64, _info: &Info) {}
+	fn value(&self) -> f64 {
+		0.25
+	}
+	fn finished(&self) -> bool {
+		self.done.load(Ordering::SeqCst)
+	}
+}
+impl Drop for IdMod {
+	fn drop(&mut self) {
+		if let Ok(mut d) = self.log.lock() {
+			d.push((self.id, std::thread::current().id()));
+		}
+	}
+}
+/// the payload (with its `Drop`) only comes into being in `build`, i.e. once a slot is reserved
+struct IdModBuilder(u64, DropLog, Arc<std::sync::atomic::AtomicBool>);
+impl ModulatorBuilder for IdModBuilder {
+	type Handle = ();
+	fn build(self, _id: ModulatorId) -> (Box<dyn Modulator>, ()) {
+		(Box::new(IdMod { id: self.0, log: self.1, done: self.2 }), ())
+	}
+}
+/// what keeps a payload alive on the game's side
+enum RHandle {
+	Send(SendTrackHandle, Option<TrackHandle>),
+	Sub(TrackHandle),
+	Clock(ClockHandle),
+	Flag(Arc<std::sync::atomic::AtomicBool>),
+}
+#[derive(Clone, Debug)]
+struct ResHist {
+	kind: RKind,
+	cap: usize,
+	/// send tracks only: every send track gets a sub-track routed to it that plays a short sound
+	routed: bool,
+	sr: u32,
+	ibs: usize,
+	frames: usize,
+	ch: u16,
+	/// 0 create, 1 callback, 100 + p: the handle of the p-th payload is dropped / it reports `finished`
+	ops: Vec<i128>,
+}
+impl ResHist {
+	fn term(&self) -> String {
+		format!("CRes {} {} {} {} [{}]", self.kind.selfref(), self.kind.prebuild(), self.cap, self.kind.mask(), self.ops.iter().map(|o| o.to_string()).collect::<Vec<_>>().join("; "))
+	}
+	fn describe(&self) -> String {
+		let ops: Vec<String> = self
+			.ops
+			.iter()
+			.map(|o| match *o {
+				0 => self.kind.create_name().to_string(),
+				1 => format!("callback({} frames, {} ch)", self.frames, self.ch),
+				p => format!("{} #{}", if matches!(self.kind, RKind::Sound | RKind::Modulator) { "finish" } else { "drop handle of" }, p - 100),
+			})
+			.collect();
+		format!("resource history on a manager with {:?} capacity {}{} (device {} Hz, internal buffer {}): {}  [model term: {}]", self.kind, self.cap, if self.routed { ", each send track with a sub-track routed to it" } else { "" }, self.sr, self.ibs, ops.join("; "), self.term())
+	}
+}
+struct ResOut {
+	obs: Vec<i128>,
+	/// (index of the operation, what) of the first violated clause
+	fail: Option<(usize, String)>,
+	callbacks: u64,
+	removed: u64,
+}
+fn run_res_history(h: &ResHist) -> ResOut {
+	let mut res = ResOut { obs: vec![], fail: None, callbacks: 0, removed: 0 };
+	let k = h.kind;
+	let caps = Capacities {
+		sub_track_capacity: if k == RKind::Sub { h.cap } else { 64 },
+		send_track_capacity: if k == RKind::Send { h.cap } else { 2 },
+		clock_capacity: if k == RKind::Clock { h.cap } else { 2 },
+		modulator_capacity: if k == RKind::Modulator { h.cap } else { 2 },
+		listener_capacity: 1,
+	};
+	let main = MainTrackBuilder::new().sound_capacity(if k == RKind::Sound { h.cap } else { 4 });
+	let mut m = match catch(|| manager(h.sr, h.ibs, caps, main)) {
+		Outcome::Ok(m) => m,
+		_ => {
+			res.fail = Some((0, format!("AudioManager::new panicked: {}", last_panic())));
+			return res;
+		}
+	};
+	if k != RKind::Sound {
+		// something audible, so that the callbacks do real work
+		let mut data = sound_from_frames(h.sr, FramesSpec { n: 64, kind: 3, seed: 1 }.expand());
+		data.settings = StaticSoundSettings::new().loop_region(..);
+		let _ = m.play(data);
+	}
+	let audio = Audio::start(m.backend_mut().renderer.take().unwrap());
+	let log: DropLog = Arc::new(Mutex::new(Vec::with_capacity(1024)));
+	let mut seen = 0usize;
+	let mut live: Vec<Option<RHandle>> = vec![];
+	let mut panicked = false;
+	let len_of = |m: &mut Mgr| -> i128 {
+		(match k {
+			RKind::Send => m.num_send_tracks(),
+			RKind::Sub => m.num_sub_tracks(),
+			RKind::Sound => m.main_track().num_sounds(),
+			RKind::Clock => m.num_clocks(),
+			RKind::Modulator => m.num_modulators(),
+		}) as i128
+	};
+	for (idx, op) in h.ops.iter().enumerate() {
+		let before = len_of(&mut m);
+		let mut head: Vec<i128> = vec![];
+		let r = catch(|| -> Option<String> {
+			match *op {
+				0 => {
+					let id = live.len() as u64;
+					let flag = Arc::new(std::sync::atomic::AtomicBool::new(false));
+					let made: Option<RHandle> = match k {
+						RKind::Send => {
+							let mut b = SendTrackBuilder::new().with_effect(ReverbBuilder::new().mix(Mix(1.0)));
+							b.add_built_effect(Box::new(IdFx { id, log: log.clone() }));
+							match m.add_send_track(b) {
+								Ok(s) => {
+									let t = if h.routed {
+										m.add_sub_track(TrackBuilder::new().with_send(s.id(), Decibels(-6.0))).ok().map(|mut t| {
+											let _ = t.play(sound_from_frames(h.sr, FramesSpec { n: 40, kind: 0, seed: id }.expand()));
+											t
+										})
+									} else {
+										None
+									};
+									Some(RHandle::Send(s, t))
+								}
+								Err(_) => {
+									// the builder (with its probe) was dropped by the failed call: no payload ever existed
+									log.lock().unwrap().retain(|(i, _)| *i != id);
+									None
+								}
+							}
+						}
+						RKind::Sub => {
+							let mut b = TrackBuilder::new();
+							b.add_built_effect(Box::new(IdFx { id, log: log.clone() }));
+							m.add_sub_track(b).ok().map(RHandle::Sub)
+						}
+						RKind::Sound => m.play(IdSoundData(IdSound { id, log: log.clone(), done: flag.clone(), _payload: vec![1u8; 64] })).ok().map(|_| RHandle::Flag(flag.clone())),
+						RKind::Clock => m.add_clock(ClockSpeed::TicksPerSecond(50.0)).ok().map(|mut c| {
+							c.start();
+							RHandle::Clock(c)
+						}),
+						RKind::Modulator => m.add_modulator(IdModBuilder(id, log.clone(), flag.clone())).ok().map(|_| RHandle::Flag(flag.clone())),
+					};
+					match made {
+						Some(hd) => {
+							head.push(0);
+							live.push(Some(hd));
+						}
+						None => {
+							head.push(1);
+							if k.prebuild() {
+								// the rejected payload has used up an index
+								live.push(None);
+							}
+						}
+					}
+				}
+				1 => {
+					let out = vec![f32::from_bits(0x7FC0_1234); h.frames * h.ch as usize];
+					audio.tx.send(AReq::Cb { out, ch: h.ch }).unwrap();
+					let (out, allocs, frees, panic) = match audio.rx.recv() {
+						Ok(AResp::Cb { out, allocs, frees, panic }) => (out, allocs, frees, panic),
+						_ => return Some("the audio thread died".into()),
+					};
+					if let Some(p) = panic {
+						head.extend([2, panic_code(&p)]);
+						panicked = true;
+						return Some(format!("the audio callback panicked: {p}"));
+					}
+					head.push(0);
+					res.callbacks += 1;
+					if allocs != 0 || frees != 0 {
+						return Some(format!("callback allocated {allocs} / freed {frees} heap blocks on the audio thread"));
+					}
+					for (j, x) in out.iter().enumerate() {
+						if x.to_bits() == 0x7FC0_1234 {
+							return Some(format!("sample {j} of the device buffer was not written"));
+						}
+						if !x.is_finite() || !(*x >= -1.0 && *x <= 1.0) {
+							return Some(format!("sample {j} of a callback is {x:?}"));
+						}
+						if h.ch > 2 && (j % h.ch as usize) >= 2 && x.to_bits() != 0 {
+							return Some(format!("extra channel {} carries {x:?}", j % h.ch as usize));
+						}
+					}
+				}
+				p => {
+					let p = (p - 100) as usize;
+					match live.get_mut(p).and_then(|x| x.take()) {
+						Some(RHandle::Flag(f)) => f.store(true, Ordering::SeqCst),
+						Some(hd) => drop(hd),
+						None => {}
+					}
+				}
+			}
+			None
+		});
+		let what = match r {
+			Outcome::Ok(w) => w,
+			_ => Some(format!("a manager / handle call panicked: {}", last_panic())),
+		};
+		res.obs.extend(head);
+		if !panicked {
+			let after = len_of(&mut m);
+			if *op == 1 && after < before {
+				res.removed += (before - after) as u64;
+			}
+			res.obs.push(after);
+			if k.mask() & 4 != 0 {
+				let d = log.lock().unwrap();
+				res.obs.push((d.len() - seen) as i128);
+				for (id, t) in d[seen..].iter() {
+					res.obs.push(*id as i128);
+					res.obs.push(if *t == audio.tid { 1 } else { 0 });
+				}
+				let on_audio = d[seen..].iter().find(|(_, t)| *t == audio.tid).map(|(id, _)| *id);
+				seen = d.len();
+				if let (Some(id), None) = (on_audio, &what) {
+					res.fail = Some((idx, format!("payload #{id} was destroyed on the audio thread")));
+					break;
+				}
+			}
+		}
+		if let Some(w) = what {
+			res.fail = Some((idx, w));
+			break;
+		}
+	}
+	if !panicked {
+		let _ = audio.tx.send(AReq::Quit);
+		if let Ok(AResp::Quit(r)) = audio.rx.recv_timeout(Duration::from_secs(2)) {
+			m.backend_mut().renderer = Some(*r);
+		}
+	}
+	drop(live);
+	drop(m);
+	res
+}
+/// `strict`: one payload at a time, add -> callbacks -> drop -> callbacks, more rounds than there are slots
+/// (and than the unused-ring has, capacity + 1); otherwise a random walk that keeps filling and emptying
+/// the storage (creation attempts on a full storage included) until as many payloads have gone round
+fn gen_res_ops(r: &mut Rng, kind: RKind, cap: usize, strict: bool) -> Vec<i128> {
+	let rounds = cap as u64 + 2 + r.below(3);
+	let mut ops: Vec<i128> = vec![];
+	if strict {
+		let mut next = 0i128;
+		for _ in 0..rounds {
+			ops.push(0);
+			if cap == 0 {
+				if kind.prebuild() {
+					next += 1;
+				}
+				ops.push(1);
+				continue;
+			}
+			for _ in 0..r.below(3) {
+				ops.push(1);
+			}
+			ops.push(100 + next);
+			next += 1;
+			for _ in 0..1 + r.below(2) {
+				ops.push(1);
+			}
+		}
+		return ops;
+	}
+	// reference bookkeeping, only to aim the marks at payloads that are alive
+	let (mut next, mut used, mut removed) = (0i128, 0usize, 0u64);
+	let mut queued: Vec<i128> = vec![];
+	let mut arena: Vec<i128> = vec![];
+	let mut marked: Vec<i128> = vec![];
+	while removed < rounds && ops.len() < 60 + 12 * cap {
+		match r.below(7) {
+			0 | 1 | 2 => {
+				if used < cap {
+					ops.push(0);
+					queued.push(next);
+					next += 1;
+					used += 1;
+				} else if r.chance(1, 4) {
+					ops.push(0);
+					if kind.prebuild() {
+						next += 1;
+					}
+				}
+			}
+			3 | 4 => {
+				let alive: Vec<i128> = queued.iter().chain(arena.iter()).filter(|p| !marked.contains(p)).cloned().collect();
+				if !alive.is_empty() {
+					let p = *r.pick(&alive);
+					marked.push(p);
+					ops.push(100 + p);
+				}
+			}
+			_ => {
+				ops.push(1);
+				let n0 = arena.len();
+				arena.retain(|p| !marked.contains(p));
+				removed += (n0 - arena.len()) as u64;
+				used -= n0 - arena.len();
+				arena.append(&mut queued);
+			}
+		}
+	}
+	ops.push(1);
+	ops.push(0);
+	ops.push(1);
+	ops
+}
+fn res_history_cases(s: &mut Session, rng: &mut Rng, extra: u64) {
+	let mut hists: Vec<ResHist> = vec![];
+	let mk = |r: &mut Rng, kind: RKind, cap: usize, strict: bool| {
+		let ibs = *r.pick(&[1usize, 7, 16, 64, 128]);
+		let frames = match r.below(4) {
+			0 => 1,
+			1 => ibs,
+			2 => ibs + 1,
+			_ => r.below(2 * ibs as u64 + 20) as usize + 1,
+		};
+		ResHist { kind, cap, routed: kind == RKind::Send && r.chance(1, 2), sr: *r.pick(&[8000u32, 44100, 48000, 96000]), ibs, frames, ch: if r.chance(1, 2) { 2 } else { r.range(1, 8) as u16 }, ops: gen_res_ops(r, kind, cap, strict) }
+	};
+	for kind in RKINDS {
+		for cap in [1usize, 2, 3] {
+			hists.push(mk(rng, kind, cap, true));
+			hists.push(mk(rng, kind, cap, false));
+		}
+		hists.push(mk(rng, kind, 0, true));
+	}
+	// the default capacities of `Capacities::default()` (send tracks 16, clocks 8, modulators 16)
+	hists.push(mk(rng, RKind::Send, 16, true));
+	hists.push(mk(rng, RKind::Clock, 8, true));
+	hists.push(mk(rng, RKind::Modulator, 16, true));
+	for _ in 0..extra {
+		let kind = *rng.pick(&RKINDS);
+		let cap = *rng.pick(&[1usize, 1, 2, 2, 3, 4, 5]);
+		let strict = rng.chance(1, 3);
+		hists.push(mk(rng, kind, cap, strict));
+	}
+	for h in hists {
+		let out = run_res_history(&h);
+		let term = h.term();
+		s.case("resource_history", term.clone(), &out.obs, if out.removed > h.cap as u64 + 1 { Some(term) } else { None });
+		*s.hist.entry("resource_history_callbacks".into()).or_insert(0) += out.callbacks;
+		*s.hist.entry("resource_history_payloads_gone_round".into()).or_insert(0) += out.removed;
+		if let Some((idx, what)) = out.fail {
+			s.fail(h.describe(), format!("operation {idx}: {what}"), None);
+		}
+	}
+}
+
 fn report(s: &mut Session, label: &str, v: Verdict) {
 	if v.class.is_none() && v.detail == "not reproduced" {
 		s.count("watchdog_expiry_not_reproduced");
@@ -1899,7 +2448,7 @@ pub fn run(args: &Args) {
 		let seed = u64::from_str_radix(sd.trim_start_matches("0x"), 16).unwrap();
 		let mut rng = Rng::new(seed);
 		let mut g = Gen { r: &mut rng, boundary: st == "b", listed: &listed };
-		let sc = if st == "s" { g.scenario() } else { g.random_scene() };
+		let sc = if st == "s" { g.scenario() } else if st == "r" { g.recycle() } else { g.random_scene() };
 		if std::env::var("C01_MIN").is_ok() {
 			// attribution + minimisation of this scene, then a traced run of the resulting scene
 			crate::util::install_panic_hook();
@@ -1927,9 +2476,12 @@ pub fn run(args: &Args) {
 		"From Coq Require Import ZArith List. Import ListNotations. Open Scope Z_scope.\nFrom KV Require Import Base.Corr C01.Run.",
 		"run",
 		150,
-		"scenes (pure data, printed in full on failure): an AudioManager with random capacities / internal buffer / sample rate, main-track effects, then operations (play static sounds with drawn volume, panning, rate incl. negative, loop, slice, start position, fade-in, delayed / clock start; streaming sounds over an in-memory decoder (documented-range values only); probe sounds that finish; sub / send / spatial tracks with every built-in effect incl. nested delay feedback effects; clocks; LFOs, tweeners, probe modulators linked to parameters; listeners; commands on random handles incl. effect handles with random tweens; handle drops; device sample-rate changes between callbacks; device callbacks of 0..3b+40 frames and 1..8 channels) in three streams: well-formed (documented ranges), boundary (0, -0, denormals, +-1e300, -60 dB, zero / huge durations, empty / inverted regions, out-of-range slices, capacity 0) and directed scenarios (finish while paused, backwards through loops, churn, clock-timed starts, short tweens, finishing modulators, vanishing send tracks); the Renderer runs on its own audio thread; observed per callback: panic, hang (watchdog), heap allocations / frees on the audio thread, thread of every probe Drop, on_start_processing count and chunk sequence, every sample written, finite, in [-1,1], extra channels silent; model cases: output stage on a unit-gain sound, output stage on the recorded mixer bus, callback step list (allocations, frees, starts, chunk lengths); distinct = scene seed; non-trivial = at least one callback rendered",
+		"scenes (pure data, printed in full on failure): an AudioManager with random capacities / internal buffer / sample rate, main-track effects, then operations (play static sounds with drawn volume, panning, rate incl. negative, loop, slice, start position, fade-in, delayed / clock start; streaming sounds over an in-memory decoder (documented-range values only); probe sounds that finish; sub / send / spatial tracks with every built-in effect incl. nested delay feedback effects; clocks; LFOs, tweeners, probe modulators linked to parameters; listeners; commands on random handles incl. effect handles with random tweens; handle drops; device sample-rate changes between callbacks; device callbacks of 0..3b+40 frames and 1..8 channels) in three streams: well-formed (documented ranges), boundary (0, -0, denormals, +-1e300, -60 dB, zero / huge durations, empty / inverted regions, out-of-range slices, capacity 0) and directed scenarios (finish while paused, backwards through loops, churn, clock-timed starts, short tweens, finishing modulators, vanishing send tracks), slot re-use scenes (send tracks with routed sub-tracks, clocks, modulators, listeners, sub-tracks, probe sounds added, used and given up for more rounds than the storage and its unused-ring (capacity + 1) have places, capacities 1 .. defaults) and single-storage histories (send tracks / sub-tracks / main-track sounds / clocks / modulators, capacity 0..5 and the defaults: strict rounds and random fill / empty walks incl. creations on a full storage); the Renderer runs on its own audio thread; observed per callback: panic, hang (watchdog), heap allocations / frees on the audio thread, thread of every probe Drop, on_start_processing count and chunk sequence, every sample written, finite, in [-1,1], extra channels silent; model cases: output stage on a unit-gain sound, output stage on the recorded mixer bus, callback step list (allocations, frees, starts, chunk lengths), single-storage histories against C08's hand-off model (outcome of every creation and callback, reported count after every operation, which payload is destroyed during which operation and on which thread); distinct = scene seed; non-trivial = at least one callback rendered",
 	);
 	out_stage_cases(&mut s, &mut rng, n / 3);
+	// (its own generator stream: the streams of the older parts are unchanged)
+	let mut rrng = Rng::new(Rng::new(args.seed ^ 0xC01_5107).next());
+	res_history_cases(&mut s, &mut rrng, n / 30);
 	let mut hangs_left = (if args.thorough { 150u32 } else { 12 }) * args.budget_mul as u32;
 	let wd = 2.5;
 	// ---- witnesses of the listed findings, regression scenes of the repaired ones
@@ -1970,14 +2522,17 @@ pub fn run(args: &Args) {
 	let mut samples = 0u64;
 	let mut drops = 0u64;
 	let mut model_budget: i64 = if args.thorough { 12_000 } else { 1_500 } * args.budget_mul as i64;
-	for i in 0..n {
+	// the slot re-use scenes come on top of the n scenes of the three older streams
+	let nr = n / 25;
+	for i in 0..n + nr {
 		let seed = rng.next();
-		let stream = if i % 10 == 9 { "s" } else if i % 3 == 2 { "b" } else { "w" };
+		let stream = if i >= n { "r" } else if i % 10 == 9 { "s" } else if i % 3 == 2 { "b" } else { "w" };
 		let mut srng = Rng::new(seed);
 		let mut g = Gen { r: &mut srng, boundary: stream == "b", listed: &listed };
-		let sc = if stream == "s" { g.scenario() } else { g.random_scene() };
+		let sc = if stream == "s" { g.scenario() } else if stream == "r" { g.recycle() } else { g.random_scene() };
 		s.eval_only(match stream {
 			"s" => "scene_scenario",
+			"r" => "scene_slot_reuse",
 			"b" => "scene_boundary",
 			_ => "scene_wellformed",
 		});
